@@ -100,6 +100,8 @@ extern "C" void harness(void)
   }
   CHECK(r.GetDefaultValue() == f.dflt, 11);
   { MTBDD r2 = mf.ExtendWith(p.asgn(NV, 0), offset); CHECK(r2 == r, 12); }
+  // canonical: when the extension denotes a constant function (f constant and equal to its default value) it is that constant's diagram
+  { bool cst = true; for (unsigned a = 0; a < NA; ++a) cst = cst & (f.t.v[a] == f.dflt); if (cst) { MTBDD k(f.dflt); CHECK(r == k, 15); CHECK(r.GetPaths().size() == k.GetPaths().size(), 16); } }
   // extension by the all-don't-care prefix is the diagram itself
   { bool allx = true; for (unsigned i = 0; i < NV; ++i) allx = allx & (p.t[i] == 2); if (allx) CHECK(r == mf, 13); }
   // prefix selection undoes prefix extension on a covered prefix
